@@ -28,8 +28,11 @@ struct lin
     bool reads_weight = false;     // multi-channel: the integrand looks at point.weight() itself (twice) before returning
     static std::string& complaint() { static std::string s; return s; }
 
+    bool cut = false;              // multiplied by the indicator of y_0 < 1/2 (exactly zero on the other half)
+
     T f(std::vector<T> const& y) const
     {
+        if (cut && !(y[0] < T(0.5))) return T();
         T v = T(1);
         for (sz k = 0; k != cs.size(); ++k) v *= T(cs[k].first) + T(cs[k].second) * y[k];
         return v;
@@ -58,6 +61,10 @@ struct lin
         }
         return f(p.point());
     }
+    // the same integrands created with a distribution (another accumulator inside the library)
+    T operator()(hep::mc_point<T> const& p, hep::projector<T>& proj) const { T const v = (*this)(p); proj.add(0, p.point()[0], v); return v; }
+    T operator()(hep::vegas_point<T> const& p, hep::projector<T>& proj) const { T const v = (*this)(p); proj.add(0, p.point()[0], v); return v; }
+    T operator()(hep::multi_channel_point<T> const& p, hep::projector<T>& proj) const { T const v = (*this)(p); proj.add(0, p.coordinates()[0], v); return v; }
     T operator()(hep::multi_channel_point<T> const& p) const
     {
         if (reads_weight)
@@ -131,6 +138,64 @@ static void plain_cases(report& r)
         if (!(std::fabs(L(res.value()) - want) <= tol))
             r.violate("biased/plain", id, id + ": lattice estimate " + vf::dec(L(res.value())) + ", integral " + vf::dec(want));
         if (!lin<T>::complaint().empty()) r.violate("weight-seen-by-integrand", id, id + ": " + lin<T>::complaint());
+        r.distinct(vf::hash_str(id));
+    }
+}
+
+// ---- integrands with a cut and/or distributions ---------------------------------------------------------
+// f x indicator(y_0 < 1/2) is integrated exactly by a midpoint lattice that has 1/2 on a cell boundary in the space
+// of the random numbers; creating the integrand with a distribution selects the library's other accumulator.
+template <typename T>
+static void cut_dist_cases(report& r)
+{
+    std::string const tn = vf::type_name<T>();
+    auto dp = hep::make_dist_params<T>(4, T(0), T(1), "d");
+    for (int variant = 1; variant != 4; ++variant)     // bit 0: with a distribution, bit 1: with the cut
+    for (int kind = 0; kind != 6; ++kind)               // 0 PLAIN, 1 VEGAS uniform 4 bins, 2 VEGAS grid [0,1/8,1/2,1], 3..5 multi-channel with 1..3 channels
+    for (sz d = 1; d <= 2; ++d)
+    for (auto const& cs : integrands(d))
+    {
+        bool const dist = variant & 1, cut = variant & 2;
+        std::string const id = tn + " plain-cut kind=" + std::to_string(kind) + " d=" + std::to_string(d) + (dist ? " dist" : "") + (cut ? " cut" : "") + " f=" + show(cs);
+        if (!r.want(id)) continue;
+        r.eval();
+        lin<T> fn{cs}; fn.cut = cut;
+        lin<T>::complaint().clear();
+        vf::script_engine gen;
+        L got = 0;
+        if (kind == 0)
+        {
+            sz const n = vf::fill_lattice(std::vector<sz>(d, 6));
+            got = dist ? hep::plain_iteration(hep::make_integrand<T>(fn, d, dp), n, gen).value() : hep::plain_iteration(hep::make_integrand<T>(fn, d), n, gen).value();
+        }
+        else if (kind <= 2)
+        {
+            sz const b = kind == 1 ? 4 : 3;
+            hep::vegas_pdf<T> pdf(d, b);
+            if (kind == 2) for (sz k = 0; k != d; ++k) { pdf.set_bin_left(k, 1, T(0.125)); pdf.set_bin_left(k, 2, T(0.5)); }
+            sz const n = vf::fill_lattice(std::vector<sz>(d, b * 3));
+            got = dist ? hep::vegas_iteration(hep::make_integrand<T>(fn, d, dp), n, pdf, gen).value() : hep::vegas_iteration(hep::make_integrand<T>(fn, d), n, pdf, gen).value();
+        }
+        else
+        {
+            sz const c = kind - 2;
+            vf::pl_map<T> map;
+            map.split = c == 1 ? std::vector<T>{T(0.5)} : c == 2 ? std::vector<T>{T(0.25), T(0.75)} : std::vector<T>{T(0.25), T(0.5), T(0.75)};
+            map.dims = d;
+            std::vector<T> const w = c == 1 ? std::vector<T>{T(1)} : c == 2 ? std::vector<T>{T(0.375), T(0.625)} : std::vector<T>{T(0.25), T(0.125), T(0.625)};
+            std::vector<sz> lat(d, 12);
+            lat.push_back(8);
+            sz const n = vf::fill_lattice(lat);
+            got = dist ? hep::multi_channel_iteration(hep::make_multi_channel_integrand<T>(fn, d, map, d, c, dp), n, w, gen).value()
+                       : hep::multi_channel_iteration(hep::make_multi_channel_integrand<T>(fn, d, map, d, c), n, w, gen).value();
+        }
+        // the first factor is integrated over [0, 1/2) when the cut is on
+        L want = cut ? cs[0].first / 2.0L + cs[0].second / 8.0L : cs[0].first + cs[0].second / 2.0L;
+        for (sz k = 1; k != cs.size(); ++k) want *= cs[k].first + cs[k].second / 2.0L;
+        L const tol = 64 * (d + 8) * std::numeric_limits<T>::epsilon() * magnitude<T>(cs) * 4;
+        if (!(std::fabs(got - want) <= tol))
+            r.violate(kind == 0 ? "biased/plain" : kind <= 2 ? "biased/vegas" : "biased/multi_channel", id, id + ": lattice estimate " + vf::dec(got) + ", integral " + vf::dec(want));
+        if (!lin<T>::complaint().empty() && kind != 2) r.violate("weight-seen-by-integrand", id, id + ": " + lin<T>::complaint());
         r.distinct(vf::hash_str(id));
     }
 }
@@ -349,6 +414,22 @@ struct remembering_map
     }
 };
 
+// A map that derives everything from the random numbers it is handed: when asked for the densities it recomputes
+// the point from `random_numbers` (the documented input of both requests) and ignores the coordinate buffer.
+template <typename T>
+struct from_random_numbers_map
+{
+    vf::pl_map<T> inner;
+    T operator()(std::size_t channel, std::vector<T> const& rn, std::vector<T>& coords, std::vector<std::size_t> const& enabled,
+        std::vector<T>& dens, hep::multi_channel_map action) const
+    {
+        if (action == hep::multi_channel_map::calculate_coordinates) return inner(channel, rn, coords, enabled, dens, action);
+        std::vector<T> at(coords.size()), unused(dens.size());
+        inner(channel, rn, at, enabled, unused, hep::multi_channel_map::calculate_coordinates);
+        return inner(channel, rn, at, enabled, dens, action);
+    }
+};
+
 template <typename T>
 static L mc_expected(std::vector<std::pair<int, int>> const& cs, int jac)
 {
@@ -396,6 +477,11 @@ static void mc_one(report& r, std::string const& id, std::vector<T> const& split
         early_map<T> emap{map};
         got = hep::multi_channel_iteration(hep::make_multi_channel_integrand<T>(lin<T>{cs}, d, emap, d, c), n, w, gen).value();
     }
+    else if (entry == 6)
+    {
+        from_random_numbers_map<T> fmap{map};
+        got = hep::multi_channel_iteration(hep::make_multi_channel_integrand<T>(lin<T>{cs}, d, fmap, d, c), n, w, gen).value();
+    }
     else if (entry == 4)
     {
         // the map keeps state between the two requests of a point
@@ -433,7 +519,7 @@ static void mc_cases(report& r, bool thorough)
         for (auto const& e : comps)
         for (int jac = 0; jac != 4; ++jac)
         for (auto const& cs : integrands(d))
-        for (int entry = 0; entry != 6; ++entry)    // 0 iteration, 1 via checkpoint, 2 unnormalised, 3 integrand reads the weight, 4 remembering map, 5 densities filled early
+        for (int entry = 0; entry != 7; ++entry)    // 0 iteration, 1 via checkpoint, 2 unnormalised, 3 integrand reads the weight, 4 remembering map, 5 densities filled early, 6 densities from the random numbers
         {
             // with the jacobian 1 + y the product f x J must stay linear per cell: constant f in y0 only
             if (jac == 3 && cs[0].second != 0) continue;
@@ -566,6 +652,7 @@ static void for_type(report& r)
     if (!r.want_prefix(tn)) return;
     bool const th = r.a().thorough();
     if (r.want_prefix(tn + " plain")) plain_cases<T>(r);
+    if (r.want_prefix(tn + " plain-cut")) cut_dist_cases<T>(r);
     if (r.want_prefix(tn + " vegas")) vegas_cases<T>(r, th);
     if (r.want_prefix(tn + " mc C") || r.want_prefix(tn + " mc8")) mc_cases<T>(r, th);
     if (r.want_prefix(tn + " mcadapt")) mc_adapted<T>(r, th);
